@@ -43,11 +43,11 @@ def partition_cases(draw, algs=None, presentations=None, oracle=False, max_bins=
     if alg == "cbldm":
         k = 2
     elif alg == "rnp":
-        k = draw(st.integers(min_bins, min(max_bins, RNP_MAX_BINS)))
+        k = draw(S.bin_counts(min_bins, min(max_bins, RNP_MAX_BINS)))
     elif alg == "ilp":
-        k = draw(st.integers(min_bins, min(max_bins, 4)))
+        k = draw(S.bin_counts(min_bins, min(max_bins, 4)))
     else:
-        k = draw(st.integers(min_bins, max_bins))
+        k = draw(S.bin_counts(min_bins, max_bins))
     n_max = max_items(alg, k, oracle)
     if max_len:
         n_max = min(n_max, max_len)
